@@ -5,7 +5,8 @@
 (* Strings are sequences of abstract symbols 1..K.  The harness realises   *)
 (* each symbol as one Unicode character (table SymText below; symbols 23.. *)
 (* are non-ASCII characters chosen to stress the parsers: multi-byte       *)
-(* encodings, a letter whose low byte is 'a', a full-width digit).         *)
+(* encodings, letters whose low byte is an accepted ASCII character, a     *)
+(* full-width digit).                                                      *)
 (*                                                                         *)
 (* Values: squares 1..64 (ArimaaBoard numbering), piece types 1..6,        *)
 (* directions 1..4, actions <<i,d>> / <<0,0>> pass / <<-1,t>> placement.   *)
@@ -20,7 +21,10 @@ SymText == << "a", "c", "h", "i", "A", "H", "`",        \*  1..7   file letters 
               "n", "e", "s", "w", "x",                  \* 12..16  directions and the trap mark
               "p", "r", "R", "E", "m", "q",             \* 17..22  pass, pieces
               " ",                                      \* 23      space
-              "U+00E9", "U+20AC", "U+0161", "U+FF11", "U+1F600" >>   \* 24..28 non-ASCII
+              "U+00E9", "U+20AC", "U+0161", "U+FF11", "U+1F600",     \* 24..28 non-ASCII
+              \* 29..32: characters whose LOW BYTE is an accepted ASCII character (a truncating
+              \* `as u8` would alias them): rank digit 1, direction n, piece r, pass p
+              "U+0131", "U+016E", "U+0172", "U+0170" >>
 K == Len(SymText)
 Sym(t) == CHOOSE k \in 1..K : SymText[k] = t
 
